@@ -574,6 +574,36 @@ func main() {
 		}
 	}
 	r.Set("conversations_text_alphabet_towards_callbacks", textConvs)
+	// error messages in every documented and undocumented argument shape,
+	// with index arguments at the integer boundaries: always acknowledged, the
+	// conversation aborts with the plugin's text
+	errConvs := 0
+	idxs := []string{"0", "1", "7", "-1", "+0", "00", "2147483648", "4294967296", "9223372036854775807", "9223372036854775808", "18446744073709551615", "18446744073709551616", "x"}
+	var errArgs [][]string
+	for _, kind := range []string{"recipient", "identity", "stanza"} {
+		errArgs = append(errArgs, []string{kind})
+		for _, a := range idxs {
+			errArgs = append(errArgs, []string{kind, a})
+			if kind == "stanza" {
+				errArgs = append(errArgs, []string{kind, "0", a}, []string{kind, a, "0"})
+			}
+		}
+	}
+	errArgs = append(errArgs, []string{"internal", "extra"}, []string{"unknown-kind", "0", "0", "0"}, []string{"stanza", "0", "0", "0"})
+	for machine := range []int{recipientMachine, identityMachine} {
+		for ai, args := range errArgs {
+			m := st(fmt.Sprintf("error[%s]", strings.Join(args, " ")), "error", args, []byte(fmt.Sprintf("plugin text #%d", ai)))
+			lead := recipientAlphabet()[0]
+			if machine == identityMachine {
+				lead = identityAlphabet()[0]
+			}
+			for _, ms := range [][]msg{{m, terminals[0]}, {lead, m, terminals[0]}} {
+				convs = append(convs, &conv{machine: machine, ui: uiCfg{1, 1, 1, 0}, msgs: ms, id: len(convs), burst: ai%4 == 1 && len(ms) > 2})
+				errConvs++
+			}
+		}
+	}
+	r.Set("conversations_error_argument_shapes", errConvs)
 	// WaitTimer: a 5.5 s silence must trigger the callback, a fast conversation must not
 	nTimer := r.Pick(1, 3)
 	for i := 0; i < nTimer; i++ {
